@@ -293,6 +293,7 @@ def run(ctx):
     if ctx.quick:
         uni = [r for r in uni if len(r[2]) <= 2] + [r for r in uni if len(r[2]) == 3][::12]
         ctx.note("stride", "depth-3 diagrams every 12th (depth <= 2 complete)")
+        ctx.cap_hit("layouts of depth 3 every 12th (depth <= 2 complete)")
     else:
         uni = [r for r in uni if len(r[2]) <= 3] + [r for r in uni if len(r[2]) == 4][::60]
         ctx.cap_hit("depth-4 diagrams enumerated with stride 60 (depth <= 3 complete)")
